@@ -85,8 +85,8 @@ PROPS['C10'] = {
 }
 
 PROPS['C03'] = {
-    'module': 'Yabgp.Props.C03',
-    'theorems': ['Yabgp.C03_contract_holds', 'Yabgp.timInv_step', 'Yabgp.C01_keepalive_timer_expires',
+    'module': 'Yabgp.Props.C03All',
+    'theorems': ['Yabgp.C03_contract_holds', 'Yabgp.timInv_step', 'Yabgp.C03_rest_keeps_timers', 'Yabgp.C03_contract_survives_rest', 'Yabgp.C01_keepalive_timer_expires',
                  'Yabgp.C01_hold_timer_expires', 'Yabgp.C01_keepalive_msg', 'Yabgp.C01_update_msg',
                  'Yabgp.C01_open_accepted', 'Yabgp.C01_tcp_connected'],
     'genagree': SESSION_GEN,
